@@ -8,6 +8,7 @@ echo "== claims for $tag"
 (cd $M && timeout 900 bash run.sh /repo > /tmp/seed_${tag}_base.log 2>&1; echo "demo on unchanged sources: rc=$?")
 (cd $W && git diff --stat | tail -1; cmake --build _build -j8 2>&1 | tail -1; ctest --test-dir _build -j8 --timeout 900 2>&1 | grep "tests passed")
 echo "== our checks"
+export VERIF_EVIDENCE_DIR=/tmp/seed_evidence_$tag; mkdir -p $VERIF_EVIDENCE_DIR
 # USE_WT=1: run our checks against the seeder's worktree (VERIF_REPO) instead of patching /repo -- needed while a
 # background run of the registered checks is reading /repo
 if [ -n "$USE_WT" ]; then export VERIF_REPO=$W; (cd $W && git diff --quiet) && { echo "worktree carries no change"; exit 3; }
@@ -16,5 +17,5 @@ for p in "$@"; do
   ( cd /verif && /usr/bin/time -f "%es" python3 tools/vcheck.py $p > /tmp/seed_${tag}_$p.out 2>&1; echo "$p rc=$? $(grep -c VIOLATION /tmp/seed_${tag}_$p.out) violation lines; $(tail -1 /tmp/seed_${tag}_$p.out)" )
 done
 [ -z "$USE_WT" ] && git -C /repo checkout -- .
-git -C /verif checkout -- evidence   # evidence must describe /repo, not the mutant
+rm -rf $VERIF_EVIDENCE_DIR   # evidence must describe /repo, not the mutant: trials write theirs elsewhere
 git -C /repo status --short | grep -v _build
